@@ -66,6 +66,9 @@ void
 evwatch_free(struct evwatch *watcher)
 {
 	EVBASE_ACQUIRE_LOCK(watcher->base, th_base_lock);
+	if (watcher->base->watcher_iter_next[watcher->type] == watcher)
+		watcher->base->watcher_iter_next[watcher->type] =
+		    TAILQ_NEXT(watcher, next);
 	TAILQ_REMOVE(&watcher->base->watchers[watcher->type], watcher, next);
 	EVBASE_RELEASE_LOCK(watcher->base, th_base_lock);
 	mm_free(watcher);
